@@ -205,7 +205,13 @@ func unpackUint[K uint_](s numSrc, c *ucfg.Config, opts []ucfg.Option, name stri
 func H_C03_unpack() {
 	s := pickSrc()
 	c, opts := s.mkCfg()
-	switch verif.Choice("target", 19) {
+	target := verif.Choice("target", 19)
+	if opts != nil && (target == 15 || target == 18) {
+		// a number behind a reference reaches a Duration target as formatted text
+		// ("5" -> ParseDuration): formatting of symbolic numbers is opaque to the engine
+		return
+	}
+	switch target {
 	case 0:
 		unpackSint[int8](s, c, opts, "int8")
 	case 1:
